@@ -299,6 +299,23 @@ class BuiltinMixin:
         if full == "time.time":
             r = fresh(REAL, "time")
             return r
+        if full in ("math.ceil", "math.floor") and isinstance(node, ast.Call) and node.args \
+                and isinstance(node.args[0], ast.BinOp) and isinstance(node.args[0].op, ast.Div):
+            # ceil(a / b), floor(a / b) over integers: exact integer arithmetic (the float quotient is exact enough
+            # for |a|, |b| < 2**53; recorded as an assumption)
+            sub = st.copy()
+            try:
+                self.spec_mode += 1
+                la, lb = self.ev(node.args[0].left, sub), self.ev(node.args[0].right, sub)
+            finally:
+                self.spec_mode -= 1
+            if isinstance(la.t, (TInt, TBool)) and isinstance(lb.t, (TInt, TBool)):
+                a, b = self.as_int(la, st, node), self.as_int(lb, st, node)
+                self.may_raise(st, b == 0, "ZeroDivisionError", node, "division by zero")
+                self.note_assumption("math.ceil/floor of an integer quotient computed in exact integer arithmetic (float rounding ignored)")
+                if name == "floor":
+                    return V(INT, self.floordiv(a, b, st, node))
+                return V(INT, -self.floordiv(-a, b, st, node))
         if full in ("math.ceil", "math.floor"):
             v = coerce(self.need_value(args[0], st, node), REAL)
             fl = z3.ToInt(v.z)
